@@ -44,7 +44,7 @@ let () =
     while true do
       let line = input_line stdin in
       match String.split_on_char ' ' line with
-      | "H" :: _ -> st.(0) <- p_init; st.(1) <- p_init; Buffer.add_string buf "H"; flush_line ()
+      | "H" :: _ -> st.(0) <- p_init; st.(1) <- p_init; Buffer.add_string buf "H"; flush_line ()   (* `H c` too *)
       | [("L" | "C") as tag; p; d; hex] ->
         let p = int_of_string p in
         let (st', o) = step c q st.(p) (bytes_of_hex hex) (d = "1") in
